@@ -18,6 +18,8 @@
  * of the source tree.
  */
 #include "proto.h"
+#include <utility>
+#include <vector>
 #include <tbox/base/json.hpp>
 #include <tbox/base/assert.h>
 #include <tbox/util/json.h>
@@ -140,8 +142,21 @@ void Proto::onRecvJson(const Json &js)
         }
 
     } else if (js.is_array()) {
-        for (auto &js_item : js) {
-            onRecvJson(js_item);
+        //! 用显式栈做深度优先遍历，嵌套层数由对端决定，不能用递归
+        std::vector<std::pair<Json::const_iterator, Json::const_iterator>> stack;
+        stack.emplace_back(js.begin(), js.end());
+        while (!stack.empty()) {
+            auto &top = stack.back();
+            if (top.first == top.second) {
+                stack.pop_back();
+                continue;
+            }
+            const Json &js_item = *top.first;
+            ++top.first;
+            if (js_item.is_array())
+                stack.emplace_back(js_item.begin(), js_item.end());
+            else
+                onRecvJson(js_item);
         }
     }
 }
